@@ -23,6 +23,7 @@ def run(ctx):
               "eigenvalue / trigonometric routines fail")
     H.rule_h1(ctx)
     H.rule_h2(ctx)
+    D.rule_t2(ctx)
     u1(ctx, ENTRIES, min_functions=15)
     ctx.r.assume("numerical equality across packagings and scale invariance "
                  "of arbitrary formulas are not decided")
